@@ -10,6 +10,23 @@ fn main() {
     if args.len() < 3 {
         usage();
     }
+    if args[1] == "progen" {
+        // vcheck progen <seed> <n> <outdir>: writes generated.rs and generated_manifest.json (only if changed)
+        let seed: u64 = args[2].parse().expect("seed");
+        let n: usize = args[3].parse().expect("n");
+        let dir = std::path::PathBuf::from(&args[4]);
+        let decls = vlib::progen::generate(seed, n);
+        let src = vlib::progen::render_program(&decls);
+        let man = serde_json::to_string_pretty(&serde_json::json!({"seed": seed, "n": n, "decls": decls})).unwrap();
+        for (name, text) in [("generated.rs", src), ("generated_manifest.json", man)] {
+            let p = dir.join(name);
+            if std::fs::read_to_string(&p).ok().as_deref() != Some(text.as_str()) {
+                std::fs::write(&p, text).expect("write generated file");
+            }
+        }
+        println!("progen: {} declarations (seed {})", n, seed);
+        return;
+    }
     if args[1] == "zoo-status" {
         for e in vlib::c08::zoo_entries() {
             match &e.doc {
